@@ -77,6 +77,8 @@ type gen struct {
 	allocs     []*allocInfo
 	readKeys   [][3]string
 	readKeySet map[string]bool
+	// signature and timestamp of the last read marker accepted per (blobber, client, allocation)
+	lastRM map[string]lastMarker
 	nonceSeq   int64
 	killOK     bool
 	t0         zcommon.Timestamp
@@ -144,9 +146,10 @@ func Run(a common.Args) {
 	// histories behind the suspected defects DESIGN §7 #18 and #6 and the repeated kill, played to the end
 	{
 		// scenario 4 always runs; scenarios 1-3 with scen=1
-		ks := []int{4}
+		// scenarios 4 and 5 always run; scenarios 1-3 with scen=1
+		ks := []int{4, 5}
 		if extraInt(a.Extra, "scen", 0) > 0 {
-			ks = []int{1, 2, 3, 4}
+			ks = []int{1, 2, 3, 4, 5}
 		}
 		for _, k := range ks {
 			id++
@@ -310,4 +313,9 @@ func (g *gen) buildBase() {
 	g.base = w.EndBlock()
 	g.baseNow = w.Now
 	g.baseAllocs = append([]*allocInfo{}, g.allocs...)
+}
+
+type lastMarker struct {
+	sig string
+	ts  int64
 }
